@@ -145,11 +145,27 @@ Definition tl_agree mb (tab : list (list byte * string)) (txt : string) : bool :
 Definition tl_agree_events mb tab (es : list ev) : bool :=
   forallb (fun e => match e with EMarshal (MText t) => tl_agree mb tab t | _ => true end) es.
 
+(* the conditions under which the round-trip theorem (props/C09.v) applies hold at every save the
+   model performs: stored segments only below the root, recursion depth within the table size, every
+   block of the store listed in the table *)
+Fixpoint rt_ready mb (tab : list (list byte * string)) (st : bst mb) (es : list ev) : bool :=
+  match es with
+  | [] => true
+  | e :: r =>
+      let '(st', o) := bexec mb tab st e in
+      (match o with
+       | OM (MText _) => ready mb (List.length (inodes (Conc mb) (fsys mb st'))) (fsys mb st') root_id
+                         && in_tab_b tab (blocks mb st')
+       | _ => true
+       end) && rt_ready mb tab st' r
+  end.
+
 Definition model_b (c : case) : bool :=
   match load_or_empty (c_mb c) (c_tab c) (c_init c) with
   | None => false
   | Some s => brun (c_mb c) (c_tab c) (binit (c_mb c) (c_tab c) s) (c_events c)
               && tl_agree (c_mb c) (c_tab c) (c_init c) && tl_agree_events (c_mb c) (c_tab c) (c_events c)
+              && tab_ok_b (c_tab c) && rt_ready (c_mb c) (c_tab c) (binit (c_mb c) (c_tab c) s) (c_events c)
   end.
 
 (* specification run: only foreground operations act; mode is tracked to know whether a save may fail *)
